@@ -32,7 +32,8 @@ def xkey(name):
 
 
 class Style:
-    def __init__(self, parens="min", case="upper", space=" ", ref_case="lower", quote=False, newline=False):
+    def __init__(self, parens="min", case="upper", space=" ", ref_case="lower", quote=False, newline=False, bare_if=False):
+        self.bare_if = bare_if  # print an IF that is the last operand of a top-level + / - chain without its own parentheses
         self.parens = parens  # min | full
         self.case = case  # upper | lower | mixed  (keywords and builtin names)
         self.space = space  # "" | " " | "  "
@@ -71,8 +72,8 @@ def num_txt(v):
     return s
 
 
-def pr(t, st, names):
-    """returns (text, precedence).  In 'full' style every compound *arithmetic* sub-expression is wrapped
+def pr(t, st, names, tail=False):
+    """returns (text, precedence).  tail: this sub-expression ends the whole equation (nothing follows it).  In 'full' style every compound *arithmetic* sub-expression is wrapped
     in (redundant) parentheses; the boolean skeleton (cmp AND/OR cmp, NOT(cmp)) is always printed flat because
     the supported grammar has no parenthesised boolean operands."""
     k = t[0]
@@ -91,6 +92,13 @@ def pr(t, st, names):
         op = t[1]
         p = PREC[op]
         l, lp = pr(t[2], st, names)
+        if tail and not full and st.bare_if and op in ("+", "-") and t[3][0] == "if":
+            # a + IF c THEN x ELSE y : the conditional extends to the end of the equation
+            r, rp = pr(t[3], st, names, tail=True)
+            r = r[1:-1] if r.startswith("(") and r.endswith(")") else r
+            if lp < p:
+                l = "(" + l + ")"
+            return l + sp + op + sp + r, 0
         r, rp = pr(t[3], st, names)
         # left operand: same precedence is fine (left-to-right), except below ^ where everything compound is wrapped
         if lp < p or (op == "**" and lp <= p) or (lp == PREC["neg"] and p >= PREC["neg"]):
@@ -134,7 +142,7 @@ def pr(t, st, names):
     if k == "if":
         c, _ = pr(t[1], st, names)
         a, ap = pr(t[2], st, names)
-        b, bp = pr(t[3], st, names)
+        b, bp = pr(t[3], st, names, tail=tail)
         nl = "\n" if st.newline else " "
         return "(" + st.kw("IF") + " " + c + nl + st.kw("THEN") + " " + a + nl + st.kw("ELSE") + " " + b + ")", PREC["atom"]
     if k == "call":
@@ -146,7 +154,7 @@ def pr(t, st, names):
 
 def print_eq(tree, style=None, names=None):
     st = style or Style()
-    txt, p = pr(tree, st, names or {})
+    txt, p = pr(tree, st, names or {}, tail=True)
     # an IF at top level does not need its parentheses
     if tree[0] == "if" and st.parens != "full" and txt.startswith("(") and txt.endswith(")"):
         txt = txt[1:-1]
